@@ -545,7 +545,7 @@ pub fn gen_case(seed: u64, shard: u64, run: u64, t: &Tier) -> Case {
     let k = CellKnobs {
         tool_p: 0.8,
         base_p: 0.8,
-        max_env: 3,
+        max_env: if knobs.chance(0.06) { 12 } else { 3 },
         max_sub: t.max_sub,
         limits: match (ctor, knobs.below(4)) {
             (Ctor::Direct, 0) => LimitKind::None,
@@ -560,7 +560,7 @@ pub fn gen_case(seed: u64, shard: u64, run: u64, t: &Tier) -> Case {
     let mut cell = gen::gen_robot(&mut w, &k);
     cell.safety = match ctor {
         Ctor::New(first) => SafetySpec::touch(if first { Mode::First } else { Mode::All }),
-        _ => gen::gen_safety(&mut w, cell.tool.is_some(), cell.base.is_some(), 3, false, k.sparse),
+        _ => gen::gen_safety(&mut w, cell.tool.is_some(), cell.base.is_some(), k.max_env, false, k.sparse),
     };
     let anchor = gen::gen_posture(&mut w, &cell.limits);
     gen::add_environment(&mut w, &mut cell, &anchor, &k);
